@@ -1514,9 +1514,10 @@ where
         if packet.qos() == Qos::AtLeastOnce || packet.qos() == Qos::ExactlyOnce {
             // Register packet ID for QoS 1 or 2
             let packet_id = packet.packet_id().unwrap();
+            // Refuse when the packet would be neither sent now nor stored for later.
             if self.status != ConnectionStatus::Connected
-                && !self.need_store
-                && !self.offline_publish
+                && !(self.need_store
+                    && (self.status != ConnectionStatus::Disconnected || self.offline_publish))
             {
                 events.push(GenericEvent::NotifyError(MqttError::PacketNotAllowedToSend));
                 if self.pid_man.is_used_id(packet_id) {
@@ -1574,9 +1575,10 @@ where
         let mut topic_alias_validated = false;
         if packet.qos() == Qos::AtLeastOnce || packet.qos() == Qos::ExactlyOnce {
             let packet_id = packet.packet_id().unwrap();
+            // Refuse when the packet would be neither sent now nor stored for later.
             if self.status != ConnectionStatus::Connected
-                && !self.need_store
-                && !self.offline_publish
+                && !(self.need_store
+                    && (self.status != ConnectionStatus::Disconnected || self.offline_publish))
             {
                 events.push(GenericEvent::NotifyError(MqttError::PacketNotAllowedToSend));
                 if self.pid_man.is_used_id(packet_id) {
